@@ -5,13 +5,74 @@ from props import sqio_common as S
 
 hx = S.hx
 
+# theorems added in round 6 (kept here: sqio_common.py is shared with C02 / C07)
+R6_THEOREMS = ["tracker_rpl_iff", "tracker_bpl_iff", "tracker_rpl_unset_iff", "tracker_nonfinal_lines_have_rpl",
+               "tracker_last_line_le_rpl", "tracker_exceptions_are_real"]
+
+
+def tracker_closed_form(data):
+    """Python rendering of Sqio/TrackerExact.lean (run_rpl_closed / run_bpl_closed): the value of (bpl, rpl) after a sequential
+    scan of the whole FASTA file = fold of `upd` over the consecutive pairs of terminated data lines of each record, in file order."""
+    def upd(pl, a, b):
+        if pl == 0:
+            return 0
+        if pl == -1:
+            return a
+        if a != pl:
+            return 0
+        if b > pl:
+            return 0
+        return pl
+    bpl = rpl = -1
+    for lines in S.fasta_geometry(data):
+        while lines and lines[0][1] == 0 and lines[0][0] <= 2:   # blank lines right after the header are skipped by header_fasta
+            lines = lines[1:]
+        lines = [l for l in lines if l[2]]                       # an unterminated last line is never an end-of-line event
+        for (b1, r1, _), (b2, r2, _) in zip(lines, lines[1:]):
+            bpl = upd(bpl, b1, b2)
+            rpl = upd(rpl, r1, r2)
+    return bpl, rpl
+
+
+def gen_trackscan(rng):
+    """FASTA files aimed at the line-geometry tracker: per record 0..5 lines whose residue counts are p, p-1, p+1, 1 in every
+    position (first / inner / last line, one-line and two-line records first or later), 0..2 blanks per line, LF or CRLF,
+    last line terminated or not. Residues only from ACGT (text and digital mode agree on them)."""
+    p = rng.choice([1, 2, 3, 4, 7, 10, 60])
+    eol = rng.choice(["\n", "\n", "\r\n"])
+    nrec = rng.choice([1, 2, 2, 3, 3, 4, 6])
+    pad = rng.choice([0, 0, 0, 1, 2])
+    clean = rng.random() < 0.35
+    out, lens = [], []
+    for i in range(nrec):
+        lens.append(0)
+        nl = rng.choice([0, 1, 1, 2, 2, 3, 3, 4, 5])
+        out.append(">t%d%s%s" % (i, rng.choice(["", " d", " a b"]), eol))
+        for j in range(nl):
+            last = j == nl - 1
+            if clean:
+                r = p if not last else rng.choice([p, max(1, p - 1), 1, p])
+            else:
+                r = rng.choice([p, p, p, p, p + 1, max(1, p - 1), 1, 2 * p])
+            ln = "".join(rng.choice("ACGT") for _ in range(r))
+            lens[-1] += r
+            k = pad if (clean or rng.random() < 0.8) else rng.choice([0, 1, 2])
+            for _ in range(k):
+                q = rng.randrange(0, len(ln) + 1)
+                ln = ln[:q] + " " + ln[q:]
+            out.append(ln + eol)
+    text = "".join(out)
+    if rng.random() < 0.3 and text.endswith(eol):
+        text = text[:-len(eol)]                                  # unterminated last line (or header)
+    return text.encode("latin-1"), lens
+
 
 class C04(Prop):
     id = "C04"
     lean_modules = ["EaselModel.Props.C04"]
     lean_exe = "c04_driver"
     harness = "h_sqio.c"
-    theorems = ["EaselModel.Props.C04." + t for t in S.C04_THEOREMS]
+    theorems = ["EaselModel.Props.C04." + t for t in S.C04_THEOREMS + R6_THEOREMS]
     claimed = True
     diverge_is_violation = True
     level_text = ("Theorems for EVERY byte string and EVERY read-block size B >= 1 (FASTA, text and DNA/RNA/amino digital mode): reading with sqascii_Read from esl_sqfile_Open on returns exactly the records and the final status of the declarative parser specFasta (30 lines of dropWhile/takeWhile/filter over the list of file bytes): name, description, residues, the true byte offsets roff/hoff/doff/eoff and L (read_all_eq_specFasta; corollary read_all_block_size_independent); "
@@ -90,6 +151,25 @@ class C04(Prop):
         out = []
         for c in range(n):
             kind = rng.choice(["dna", "dna", "dna", "rna", "amino"])
+            if rng.random() < 0.06:
+                # sequential scan + `geom`: the tracker's final (bpl, rpl) must be the closed form of Sqio/TrackerExact.lean
+                # (tracker_rpl_iff / tracker_bpl_iff rest on it) - checked on the implementation's answer by monitor()
+                data, lens = gen_trackscan(rng)
+                nrec = len(lens)
+                ops = ["file ext=fa hex=" + hx(data)]
+                for _ in range(rng.choice([1, 2])):
+                    call = rng.choice(["read", "read", "win"])      # (ReadSequence goes through skip_fasta, which never starts the line bookkeeping)
+                    ops.append("open fmt=fasta abc=%s B=%d" % (rng.choice(["text", "dna"]), S.pick_B(rng, data)))
+                    if call == "win":
+                        W = rng.choice([3, 7, 64, 5000])
+                        for L in lens:
+                            ops += ["readwin C=%d W=%d" % (rng.choice([0, 2]), W)] * ((L + W - 1) // W + 1) + ["reuse"]
+                        ops.append("readwin C=0 W=%d" % W)
+                    else:
+                        ops += [call] * (nrec + 1)
+                    ops += ["geom", "close"]
+                out.append({"name": "trackscan%d" % c, "ops": ops, "sticky": 1, "meta": {"kind": "dna", "geom": "trackscan", "nrec": nrec, "trackscan": True}})
+                continue
             if rng.random() < 0.12:
                 # ReadBlock long-target stream: records that leave 0,1,2,3,... residues free in a block before a long record, requested
                 # context smaller / equal / larger than the carried-over piece, max_init_window on and off
@@ -256,7 +336,25 @@ class C04(Prop):
 
     # ---------------------------------------------------------------- monitor
     def monitor(self, ctx, case, out):
-        return S.monitor_c04(case, out)
+        f = S.monitor_c04(case, out)
+        if f or not (case.get("meta") or {}).get("trackscan"):
+            return f
+        # the Ev-level closed form of the tracker (TrackerExact.lean) against the real seebuf(): after a sequential scan of the
+        # whole file from open on, by Read / ReadSequence / forward windows, (bpl, rpl) = fold over consecutive line pairs
+        data = S.unhx(case["ops"][0].split("hex=")[1])
+        want = tracker_closed_form(data)
+        eof_seen = False
+        for op, l in zip(case["ops"], out):
+            if op.startswith("open "):
+                eof_seen = False
+            elif l.startswith("eof"):
+                eof_seen = True
+            elif op == "geom" and eof_seen and l.startswith("ok bpl="):
+                d = dict(x.split("=", 1) for x in l.split()[1:])
+                got = (int(d["bpl"]), int(d["rpl"]))
+                if got != want:
+                    return Failure("monitor", "line-geometry tracker after a full scan: (bpl, rpl) = %s, closed form of the consecutive line pairs = %s" % (got, want))
+        return None
 
 
 SPEC = C04()
